@@ -714,6 +714,33 @@ func IsFloat64Val(a any) bool { _, ok := a.(float64); return ok }
 //@   ensures[other-values-untouched] !IsFloat64Val(in) ==> out == in
 //@   ensures[int-only-if-lossless] IsFloat64Val(in) ==> verifspec.Same(out, in) || IntBack(out, Float64Of(in))
 
+// TextOf: the string held by an interface value ("" when it holds none).
+func TextOf(a any) string { s, _ := a.(string); return s }
+
+// IsText: a holds a string.
+func IsText(a any) bool { _, ok := a.(string); return ok }
+
+// SlashDelimited: a text that begins and ends with '/', as the lexer's regular-expression
+// tokens do (two delimiters, so at least two bytes).
+func SlashDelimited(s string) bool { return len(s) >= 2 && s[0] == '/' && s[len(s)-1] == '/' }
+
+// SlashEnds: first and last byte are '/' (a single "/" included).
+func SlashEnds(s string) bool { return len(s) >= 1 && s[0] == '/' && s[len(s)-1] == '/' }
+
+// literalToExpr is the kind the decoder infers from a leaf's text (C12): a /slash-delimited/
+// text is a regular expression, a text with * or ? a wildcard, everything else a plain term;
+// the value itself is kept.
+
+//@ func literalToExpr
+//@   decreases 1
+//@   props C12
+//@   inline
+//@   ensures[expression-passes-through] IsExpr(in) ==> result == in.(*Expression)
+//@   ensures[slash-delimited-text-is-a-regexp] IsText(in) && SlashDelimited(TextOf(in)) ==> result != nil && result.Op == Regexp && result.Left == in && result.Right == nil
+//@   ensures[wildcard-text-is-a-wildcard] IsText(in) && !SlashEnds(TextOf(in)) && strings.ContainsAny(TextOf(in), "*?") ==> result != nil && result.Op == Wild && result.Left == in && result.Right == nil
+//@   ensures[other-text-is-a-term] IsText(in) && !SlashEnds(TextOf(in)) && !strings.ContainsAny(TextOf(in), "*?") ==> result != nil && result.Op == Literal && result.Left == in && result.Right == nil
+//@   ensures[other-values-are-terms] !IsText(in) && !IsExpr(in) ==> result != nil && result.Op == Literal && result.Left == in && result.Right == nil
+
 // JSONIsInt / JSONIsFloat: the raw JSON text reads as a base-10 int / as a 64-bit decimal number.
 func JSONIsInt(in []byte) bool   { _, err := strconv.Atoi(string(in)); return err == nil }
 func JSONIsFloat(in []byte) bool { _, err := strconv.ParseFloat(string(in), 64); return err == nil }
